@@ -132,4 +132,30 @@ CLAIMS["C18"] = {
     "note": "Trusts: lower <= upper bounds; comparator semantics (C01); the induction from the per-insertion action table to the global invariant.",
 }
 
+CLAIMS["C11"] = {
+    "category": "other",
+    "technique": "event-order rules over enumerated paths (Job.evaluate success paths; sync_individual with exception edges; conn(); _create_structure), SQL/PRAGMA literal parsing",
+    "text": "Decides the code-shape conditions under which SQLite's atomic-commit guarantee yields the property at every crash point: "
+            "(1) on every success path of Job.evaluate the store call follows the final writes of costs, signed costs and state and nothing "
+            "persistent is written after it; (2) on every non-exceptional write path of sync_individual exactly one upsert statement is "
+            "executed and committed on the same connection before returning, and an OperationalError is retried, never swallowed - so a "
+            "returned synchronisation is durable and a row is never assembled by several statements; (3) the default thread-safe conn() "
+            "creates a fresh exclusive connection per call, caches nothing on the store and keeps a rollback journal (journal_mode not "
+            "OFF/MEMORY); (4) the structure and problem rows are committed before the constructor returns. Crash points are covered because "
+            "the rules constrain every path, not sampled kill times. SQLite's own recovery is an axiom.",
+    "note": "Trusts: SQLite atomic commit and rollback-journal recovery; process death only (no power loss; synchronous=0 is outside the fault model).",
+}
+CLAIMS["C10"] = {
+    "category": "other",
+    "technique": "writer/reader field-table agreement (to_dict vs from_dict by access-path provenance), SQL constant parsing (primary key, upsert conflict clause, bound values), reader coverage, dirty/clean typestate over the paths of every store-touching run()",
+    "text": "Decides the structural conditions of the round trip: for each claimed field the writer takes the whole attribute of that name "
+            "and the reader restores it to that attribute (nested individuals replaced by ids); the individuals table has a primary key "
+            "and the statement used by sync_individual and sync_all is an upsert on it that overwrites the payload (last wins), bound to "
+            "(id, json.dumps(to_dict())); the reader selects all four tables and rebuilds through from_dict, and the view opens read-only; "
+            "and in every run() method that records individuals or tags generations (19 today) every recording/tagging is followed on every "
+            "normal path by a synchronisation of that individual, by Job.evaluate's store call, or by sync_all over problem.individuals. "
+            "Bit-exactness of floats through JSON and SQLite's conflict handling are axioms.",
+    "note": "Trusts: json round-trip of floats/inf/bool/np.float64; SQLite ON CONFLICT semantics; loops of run() unrolled 0/1 (typestate has 2 states).",
+}
+
 NOT_APPLICABLE = {}
